@@ -42,6 +42,12 @@ impl Cmp for DefaultCmp {
             diff_at += 1;
         }
 
+        // One string is a prefix of the other: `a` itself is the only safe separator (a + "\0"
+        // would be equal to `b` for b = a + "\0").
+        if diff_at == min {
+            return a.to_vec();
+        }
+
         while diff_at < min {
             let diff = a[diff_at];
             if diff < 0xff && diff + 1 < b[diff_at] {
